@@ -124,7 +124,8 @@ LEVEL = {
                'the output untouched). The dependency\'s decrypt_padded{,_inout,_b2b} are verified: a length that is not a multiple of the block '
                'size is an error and nothing is written. crypto-common\'s inner_iv_slice_init and KeyIvInit::new_from_slices (trait default and '
                'the blanket impl for the modes) are verified: Ok iff the slices have the key / IV length. Buffered CFB: harness only (bounded). '
-               'The cipher\'s own KeyInit::new_from_slice is assumed (Ok iff key length).'),
+               'The cipher\'s own KeyInit::new_from_slice is assumed (Ok iff key length). Known finding F4: the dependency\'s try_seek '
+               'panics for a negative position of the signed SeekNum type (the verified text needs the precondition pos >= 0); recorded, replayed.'),
     'C14': _lv('Front-ends are equal because they are proved equal to one shared spec function: OFB block step = keystream step (lemma), '
                'cts::cbc_enc/cbc_dec and the cbc crate against the same run(cbc step), CS1/CS2/CS3 on whole blocks (lemmas), buffered CFB on a '
                'whole block = block CFB step (lemma_cfb_buf_block).',
@@ -204,7 +205,7 @@ def _scan_harnesses():
                     unit = u
                     break
             info = {'units': [unit] if unit else [], 'kani': False,
-                    'props': {'debug': ['C17'], 'drop': ['C17'], 'clone': ['C16', 'C01'], 'indep': ['C16'], 'resume': ['C09', 'C14', 'C01'], 'parks': ['C07', 'C01', 'C04', 'C06', 'C03', 'C09', 'C10'], 'remaining': ['C10', 'C11', 'C06', 'C13'], 'padded': ['C01', 'C13', 'C14'], 'beltdef': ['C06', 'C01', 'C07', 'C08', 'C10', 'C14'], 'wdebug': ['C17']}.get(kind, []),
+                    'props': {'debug': ['C17'], 'drop': ['C17'], 'clone': ['C16', 'C01'], 'indep': ['C16'], 'resume': ['C09', 'C14', 'C01'], 'parks': ['C07', 'C01', 'C04', 'C06', 'C03', 'C09', 'C10'], 'remaining': ['C10', 'C11', 'C06', 'C13'], 'padded': ['C01', 'C13', 'C14'], 'beltdef': ['C06', 'C01', 'C07', 'C08', 'C10', 'C14'], 'wdebug': ['C17'], 'seekneg': ['C13']}.get(kind, []),
                     'bounds': {'debug': 'Debug text of two instances with different key / IV / history / position is equal (native random search, toy invertible cipher)',
                                'drop': 'feature zeroize: after drop no 8-byte window of the exported state is left in the object storage (native, 16-byte toy cipher)',
                                'clone': 'clone after a random history; original and clone interleaved equal two fresh replays, incl. positions and seeks (native)',
@@ -214,6 +215,7 @@ def _scan_harnesses():
                                'padded': 'padded front-ends (dependency code over the repo mode): encrypt_padded_b2b Ok iff room, = block encryption of the padded message, decrypt_padded_b2b inverts it, lengths not a multiple of the block size rejected without writing, IV slice length check (native, toy invertible cipher, Pkcs7 / Iso7816)',
                                'beltdef': 'BelT-CTR keystream against its definition E(le128((s0 + i) mod 2^128)) with s0 placed at 2^32 / 2^64 / 2^96 / 2^128 boundaries, single blocks then the parallel entry point, widths 1-3 (native, invertible toy cipher)',
                                'wdebug': 'Debug text of the public byte-level stream cipher types (dependency wrapper over the repo cores) after the same history under two keys / IVs (native); carries known finding F3',
+                               'seekneg': 'try_seek with any i32 position (negative included) must return, not panic; non-negative positions are reached and reported (native); carries known finding F4',
                                'resume': 'export at a random cut (block / byte), import into a fresh instance, continue == uninterrupted run; encryptor and decryptor states equal; public chaining value (native, toy invertible cipher)'}.get(kind, n)}
         out[n] = info
     out.update(HARNESS_OVERRIDES)
